@@ -560,6 +560,21 @@ def gen() -> None:
     text += f"Definition is_exhausted_gen (pos limit : Z) : bool :=\n  {tr.function(find_method(cls, 'is_exhausted'))}.\n\n"
     text += _gen_readinto(cls)
     text += _gen_readall(cls)
+    # every public name LimitedStream defines itself; everything else is inherited from io.RawIOBase / io.IOBase
+    # (read(n), read(-1) / read(None) = readall, readline, readlines, __iter__ / __next__, writable / seekable = False, close, ...)
+    own = [n.name for n in cls.body if isinstance(n, ast.FunctionDef)]
+    if own != ["__init__", "is_exhausted", "on_exhausted", "on_disconnect", "exhaust", "readinto", "readall", "tell", "readable"]:
+        raise px.Unsupported(f"LimitedStream defines {own}: a method the model does not know")
+    if [b_.id if isinstance(b_, ast.Name) else ast.unparse(b_) for b_ in cls.bases] != ["io.RawIOBase"]:
+        raise px.Unsupported("LimitedStream no longer derives from io.RawIOBase only")
+    if [ast.unparse(x) for x in strip_doc(find_method(cls, "readable").body)] != ["return True"]:
+        raise px.Unsupported("LimitedStream.readable changed")
+    tr = T2("LimitedStream.tell", {"self._pos": ("int", "pos")})
+    t_, c_ = tr.expr(strip_doc(find_method(cls, "tell").body)[0].value) if len(strip_doc(find_method(cls, "tell").body)) == 1 \
+        and isinstance(strip_doc(find_method(cls, "tell").body)[0], ast.Return) else ("?", "")
+    if t_ != "int":
+        raise px.Unsupported("LimitedStream.tell changed")
+    text += f"Definition tell_gen (pos : Z) : Z := {c_}.\n"
     full = _gen_readinto_full(cls)
     px.write_if_changed(os.path.join(COQ, "C09", "Gen.v"), text)
     px.write_if_changed(os.path.join(COQ, "C09", "GenRI.v"), full)
@@ -671,7 +686,8 @@ def impl_ls(data, limit, is_max, hasri, sched, ops, fails: list, stream=None, un
                 r = "b:" + hexs(d)
                 eof = d == b""
             elif f[0] == "a":
-                d = ls.read()
+                # read() / read(-1) / readall(): the same entry point (io.RawIOBase.read(None) is a TypeError of the C type itself)
+                d = (ls.read, lambda: ls.read(-1), ls.readall)[(len(data) + limit + len(ops)) % 3]()
                 r = "b:" + hexs(d)
                 eof = True
             elif f[0] == "e":
@@ -683,6 +699,11 @@ def impl_ls(data, limit, is_max, hasri, sched, ops, fails: list, stream=None, un
                 d = ls.readline(k)
                 r = "b:" + hexs(d)
                 eof = d == b"" and k != 0
+            elif f[0] == "it":
+                lines = list(ls) if (len(data) + limit) % 2 else [x for x in ls]
+                d = b"".join(lines)
+                r = "l:" + ",".join(hexs(x) for x in lines)
+                eof = True
             elif f[0] == "L":
                 k = -1 if f[1] == "-" else int(f[1])
                 lines = ls.readlines(k)
@@ -694,7 +715,10 @@ def impl_ls(data, limit, is_max, hasri, sched, ops, fails: list, stream=None, un
         except Exception as e:  # noqa: BLE001
             exn = _exn_name(e)
             r = "x:" + exn
-        res.append(f"{r}@{ls._pos}/{und.off}/{und.calls}")
+        res.append(f"{r}@{ls.tell()}/{und.off}/{und.calls}")
+        if ls.tell() != ls._pos or ls.readable() is not True or ls.writable() or ls.seekable():
+            bad("stream-interface", f"tell() {ls.tell()} vs _pos {ls._pos}; readable {ls.readable()}, writable {ls.writable()}, "
+                                    f"seekable {ls.seekable()}")
         evs = und.events[ev0:]
         # ---------------- the property, transcribed
         if und.off > limit:
@@ -731,7 +755,7 @@ def impl_ls(data, limit, is_max, hasri, sched, ops, fails: list, stream=None, un
         if exn is None and eof and not is_max and ls._pos != limit:
             bad("silent-truncation", f"{o} signalled end of stream at {ls._pos} of {limit} declared bytes")
         # (exhaust() called at the limit is a no-op by definition: it returns the nothing that remains)
-        if exn is None and eof and is_max and f[0] in ("a", "e", "L") and ls._pos >= limit and und.off < len(data) \
+        if exn is None and eof and is_max and f[0] in ("a", "e", "L", "it") and ls._pos >= limit and und.off < len(data) \
                 and (f[0] != "L" or f[1] == "-") and not (f[0] == "e" and pos0 >= limit):
             bad("max-unbounded-read-truncates",
                 f"{o} on a limit-is-maximum stream returned {len(d)} bytes of a {len(data)}-byte body without RequestEntityTooLarge")
@@ -770,13 +794,15 @@ def gen_ls_case(rng):
             ops.append("e")
         elif r < 0.88:
             ops.append("l:" + rng.choice(["-", "-", "-", "1", "2", "4"]))
-        else:
+        elif r < 0.95:
             ops.append("L:" + rng.choice(["-", "-", "1", "3", "6"]))
+        else:
+            ops.append("it")
     return data, limit, is_max, hasri, sched, ops
 
 
 def exhaustive_ls_cases(quick: bool):
-    ops1 = [f"i:m:{hexs(bytes([FILL]) * 4)}", f"i:b:{hexs(bytes([FILL]) * 2)}", "r:2", "a", "l:-", "L:-"]
+    ops1 = [f"i:m:{hexs(bytes([FILL]) * 4)}", f"i:b:{hexs(bytes([FILL]) * 2)}", "r:2", "a", "l:-", "it"]
     if not quick:
         ops1 += ["r:1", "e", "l:2", f"i:b:{hexs(bytes([FILL]) * 5)}"]
     opsets = [[a] for a in ops1] + [[a, b] for a in ops1 for b in ops1]
@@ -1332,7 +1358,9 @@ def main(chk: Check) -> None:
         "is_exhausted; statement skeletons of LimitedStream.readinto / readall / exhaust with the comparisons, sizes and the slice "
         "source generated at the holes)",
         "extraction ExtrOcamlBasic + tools/conv.ml + coq/C09/driver.ml, OCaml 4.13.1",
-        "io.RawIOBase.read, io.IOBase.readline / readlines / iteration modelled by hand as loops over readinto / read(1) "
+        "LimitedStream defines exactly __init__, is_exhausted, on_exhausted, on_disconnect, exhaust, readinto, readall, tell, readable "
+        "(pinned; a new method stops the translator); everything else is inherited: "
+        "io.RawIOBase.read (read(-1) / read(None) = readall), io.IOBase.readline / readlines / iteration modelled by hand as loops over readinto / read(1) "
         "(CPython _io semantics; validated differentially); io.BufferedReader / io.TextIOWrapper only drive readinto / readall and "
         "are exercised by the harness, not modelled",
         "the underlying stream honours the io contract: read(n) / readinto(b) deliver at most n / len(b) bytes; failures are OSError or ValueError",
